@@ -732,9 +732,28 @@ func runKick(r *vk.Run) {
 	if rec := hlsGet(w, "/hls/b.m3u8", "10.1.2.3:5"); rec == nil || rec.Body.String() != playlist {
 		r.Violation("blacklist/baseline", "playlist not served to an address that is not listed", "blacklist")
 	}
+	w.FS.WriteFile(root+"/b/record.m3u8", []byte(playlist), 0o644)
+	w.FS.WriteFile(root+"/b/b-1-0.ts", []byte("TSDATA"), 0o644)
+	// every kind of HLS content, in every URL form the handler understands
+	content := []string{"/hls/b.m3u8", "/hls/b/playlist.m3u8", "/hls/b/record.m3u8", "/hls/b-1-0.ts", "/hls/b/b-1-0.ts"}
+	for _, u := range content {
+		if rec := hlsGet(w, u, "10.1.2.3:5"); rec == nil || rec.Code != 200 || !(rec.Body.String() == playlist || rec.Body.String() == "TSDATA") {
+			r.Violation("blacklist/baseline", "GET "+u+" is not served to an address that is not listed", "blacklist")
+		}
+	}
 	w.SM.CtrlAddIpBlacklist(base.ApiCtrlAddIpBlacklistReq{Ip: "10.1.2.3", DurationSec: 3600})
-	if rec := hlsGet(w, "/hls/b.m3u8", "10.1.2.3:5"); rec == nil || strings.Contains(rec.Body.String(), "#EXTM3U") || rec.Code == 200 {
-		r.Violation("blacklist/served", "black-listed address still got the playlist", "blacklist")
+	for _, u := range content {
+		if rec := hlsGet(w, u, "10.1.2.3:5"); rec == nil || strings.Contains(rec.Body.String(), "#EXTM3U") || strings.Contains(rec.Body.String(), "TSDATA") || rec.Code == 200 {
+			r.Violation("blacklist/served", "black-listed address still got "+u, "blacklist")
+		}
+		r.Class("blacklist" + u)
+	}
+	// an entry that has expired no longer bans
+	w.SM.CtrlAddIpBlacklist(base.ApiCtrlAddIpBlacklistReq{Ip: "10.1.2.9", DurationSec: -1})
+	for _, u := range content {
+		if rec := hlsGet(w, u, "10.1.2.9:5"); rec == nil || rec.Code != 200 {
+			r.Violation("blacklist/expired-entry-bans", "GET "+u+" refused to an address whose black-list entry has expired", "blacklist")
+		}
 	}
 	if rec := hlsGet(w, "/hls/b.m3u8", "10.1.2.4:5"); rec == nil || rec.Body.String() != playlist {
 		r.Violation("blacklist/other-address", "another address lost access", "blacklist")
